@@ -79,6 +79,8 @@ def gen_unit(rng):
     n = rng.choice((0, 1, 2, 5, 12, 40))
     u["inputs"] = [eg.gen_input(rng) for _ in range(n)]
     u["shuffle_seed"] = rng.getrandbits(32)
+    # in the second run (shuffled options) the same values sometimes arrive as 1-3 files instead of stdin
+    u["file_cuts"] = sorted(rng.randint(0, n) for _ in range(rng.choice((0, 1, 1, 2)))) if rng.random() < 0.3 else None
     return u
 
 
@@ -165,6 +167,12 @@ def run_unit(ctx, unit):
     r.shuffle(order)
     a1, a2 = argv(G), argv(G, order)
     cases = [core.Case(a1, data), core.Case(a2, data)]
+    if unit.get("file_cuts") is not None:
+        texts = [jm.dumps(v).encode("utf-8") for v in unit["inputs"]]
+        b = [0] + list(unit["file_cuts"]) + [len(texts)]
+        files = [("in%d.json" % (len(b) - i), b"\n".join(texts[b[i]:b[i + 1]])) for i in range(len(b) - 1)]
+        cases[1] = core.Case(["@D@/" + nme for nme, _ in files] + a2, b"", files=files)
+        st.count("second_run_from_files")
     if unit["selects"] and unit["group"] is None and not unit["merge"]:
         cases.append(core.Case(a1 + ["-o", "csv"], data))
     obs = ctx.drv.run_many(cases)
@@ -179,7 +187,7 @@ def run_unit(ctx, unit):
         return
     st.count("conclusive")
     if o2.result != "ok" or o2.stdout != o1.stdout:
-        st.violation("argv-order-matters", "the order of options on the command line changes the output", unit_json(unit),
+        st.violation("argv-order-matters", "the order of options on the command line (or stdin vs files delivery) changes the output", unit_json(unit),
                      {"args_1": a1, "args_2": a2, "stdout_1": o1.stdout[:800], "stdout_2": o2.stdout[:800], "result_2": o2.result + " " + o2.errtext[:200]})
         return
     st.count("argv_permutations_compared")
